@@ -30,6 +30,8 @@ enum Kind {
     LockedOutGroup,
     /// the same through `anstream::stderr().lock()`
     LockedErrGroup,
+    /// a stream built directly over an already locked handle: `AutoStream::auto(stdout().lock())`
+    DirectLockedOut,
     SetGlobal(u8),
     GetGlobal,
 }
@@ -89,7 +91,7 @@ fn generate(scen_seed: u64) -> Scenario {
             if register && rng.chance(1, 2) {
                 calls.push(Call { kind: if rng.chance(2, 3) { Kind::SetGlobal(*rng.pick(&[0u8, 1, 1, 3, 3])) } else { Kind::GetGlobal }, frags: vec![] });
             }
-            let kind = match rng.below(10) {
+            let kind = match rng.below(11) {
                 0 => Kind::Print,
                 1 => Kind::Println,
                 2 => Kind::Eprint,
@@ -99,6 +101,7 @@ fn generate(scen_seed: u64) -> Scenario {
                 6 => Kind::WriteAllOut,
                 7 => Kind::WriteAllErr,
                 8 => Kind::LockedErrGroup,
+                9 => Kind::DirectLockedOut,
                 _ => Kind::LockedOutGroup,
             };
             calls.push(Call { kind, frags: frags(&mut rng, t, c) });
@@ -167,6 +170,10 @@ fn run_calls(sc: &Scenario, t: usize, bad: &std::sync::Mutex<Vec<String>>) {
                 let mut l = anstream::stdout().lock();
                 write!(l, "{}", Frags(&f[..2])).unwrap();
                 write!(l, "{}", Frags(&f[2..])).unwrap();
+            }
+            Kind::DirectLockedOut => {
+                let mut s = anstream::AutoStream::auto(std::io::stdout().lock());
+                write!(s, "{}{}", Frag(&f[0]), Frags(&f[1..])).unwrap();
             }
             Kind::LockedErrGroup => {
                 let mut l = anstream::stderr().lock();
@@ -549,7 +556,7 @@ fn expected_all(sc: &Scenario, call: &Call) -> Vec<(bool, Vec<Vec<u8>>)> {
 fn expected(sc: &Scenario, call: &Call) -> Option<(bool, Vec<Vec<u8>>)> {
     let raw = call.frags.concat();
     let (err, raw) = match call.kind {
-        Kind::Print | Kind::WriteOut | Kind::WriteAllOut | Kind::LockedOutGroup => (false, raw),
+        Kind::Print | Kind::WriteOut | Kind::WriteAllOut | Kind::LockedOutGroup | Kind::DirectLockedOut => (false, raw),
         Kind::Println => (false, raw + "\n"),
         Kind::Eprint | Kind::WriteAllErr | Kind::LockedErrGroup => (true, raw),
         Kind::Eprintln | Kind::WritelnErr => (true, raw + "\n"),
